@@ -9,13 +9,22 @@
 (***************************************************************************)
 EXTENDS Blocks, Json
 
-CONSTANT MaxBlocks
-VARIABLE bs
-Init == bs = <<>>
-Next == Len(bs) < MaxBlocks /\ \E b \in BlockIds : (\A i \in 1..Len(bs) : bs[i] # b) /\ bs' = Append(bs, b)
-Spec == Init /\ [][Next]_bs
+CONSTANTS MaxBlocks,
+          Prelude      \* a sequence of blocks other blocks depend on (tags, types, enum, macro), placed before or after
+                       \* the chosen blocks -- declarations are order-independent, so both must behave alike; <<>> = none
+PreludeNone == <<>>
+PreludeDeps == <<"tag1", "tag2", "t1", "e1", "mac">>
+VARIABLES bs, pre
+vars == <<bs, pre>>
+Init == bs = <<>> /\ pre \in (IF Prelude = <<>> THEN {"none"} ELSE {"none", "before", "after"})
+InPrelude(b) == \E i \in 1..Len(Prelude) : Prelude[i] = b
+Next == /\ Len(bs) < MaxBlocks
+        /\ \E b \in BlockIds : (\A i \in 1..Len(bs) : bs[i] # b) /\ (pre # "none" => ~InPrelude(b)) /\ bs' = Append(bs, b)
+        /\ UNCHANGED pre
+Spec == Init /\ [][Next]_vars
 
-Doc == DocOf(bs)
+Blocks(b, q) == CASE q = "none" -> b [] q = "before" -> Prelude \o b [] q = "after" -> b \o Prelude
+Doc == DocOf(Blocks(bs, pre))
 T == RunTree(Doc)
 X == Expand(T)
 C == RunCatalog(T, X)
@@ -27,5 +36,5 @@ KnownVerdict == T.res \in {"ok"} => C.res \in {"ok", "err"}
 InterOrder == Accepted => \A i, j \in 1..Len(C.inters) : i < j => C.inters[i].node < C.inters[j].node
 
 ASSUME PrintT("L " \o ToJson(PoolsJson))
-Emit == PrintT("E " \o ToJson([blocks |-> bs', doc |-> DocOf(bs'), x |-> Build(DocOf(bs'))]))
+Emit == LET b == Blocks(bs', pre') IN PrintT("E " \o ToJson([blocks |-> b, doc |-> DocOf(b), x |-> Build(DocOf(b))]))
 =============================================================================
